@@ -88,3 +88,12 @@ func verifRequest(method string, query map[string]string, body any) *http.Reques
 	}
 	return r
 }
+
+// verifRequestOf: a request whose body is the JSON rendering of *body (a
+// value of the type the handler decodes into), so decoding cannot fail.
+func verifRequestOf(method string, query map[string]string, body any) *http.Request {
+	if verifSymbolic() {
+		verifGhostSet("json.wellformed", true)
+	}
+	return verifRequest(method, query, body)
+}
